@@ -225,17 +225,19 @@ def base_programs(tier):
             if f == "E":
                 if 'depth:1' not in case["tags"] or case["family"] not in ("E.init", "E.arg", "E.ret", "E.cond", "E.index", "E.fstr", "E.field"):
                     continue
-                if quick and i % 3:
+                if quick and i % 4:
                     continue
             if f == "R" and (quick or i % 4) and not (i % 40 == 0):
                 continue
             if f == "K" and (i % (16 if quick else 3)):
                 continue
-            if f in ("F", "A") and quick and i % 8:
+            if f in ("F", "A") and quick and i % 10:
                 continue
             if f == "H" and quick and i % 9:
                 continue
             if f == "S" and quick and case["family"] == "S.method-locals":
+                continue
+            if f == "O" and quick and i % 2 and "inherit" not in case["family"]:
                 continue
             yield case
 
